@@ -9,7 +9,7 @@ import numpy as np
 import torch
 import pypose as pp
 
-from ..core import rng, refmath
+from ..core import rng, refmath, boundary
 from ..core.outcome import Violation
 from .clocksim import StackedLTV, PropLTV
 
@@ -238,6 +238,7 @@ def execute(plan, prop, out, tr):
                 with torch.no_grad():
                     A.mul_(0.9).add_(0.1 * rng.randn(s, ("updA", i), tuple(A.shape), dt))
                     Bm.add_(0.3 * rng.randn(s, ("updB", i), tuple(Bm.shape), dt))
+                boundary.refresh(A, Bm)
                 out.fault("model-updated-in-place"); out.ops += 1
             continue
         if op == "reset":
@@ -275,6 +276,7 @@ def execute(plan, prop, out, tr):
             if T > 1:
                 u0[:, :-1] = u0[:, 1:].clone()
             u0[:, -1] = rng.randn(s, ("ushift", i), (B, nc), dt)
+            boundary.refresh(u0)
         else:
             u0, uk = None, "none"
         out.probe("u:" + uk)
